@@ -64,6 +64,8 @@ struct pool_desc
     bool prioq = false, steal = true, opaque = false, is_static = false;
 };
 static std::vector<pool_desc> g_pools;    // [0] = default pool
+static bool g_susp_mode = false;          // mode susp: every body suspends once, right away
+static bool g_oob_hints = false;          // C10_OOB_HINTS=1: out-of-range hints also on shared-priority pools
 static std::size_t g_nhp_opt = 0;          // --pika:high-priority-threads (0 = unset)
 
 static pika::resource::scheduling_policy policy_of(std::string const& p)
@@ -190,10 +192,10 @@ static void body(expect e, std::uint64_t seed, bool can_block)
     observe(e, "entry");
     if (e.pool != 99 && can_block)
     {
-        int steps = int(r.below(4));
+        int steps = g_susp_mode ? 1 : int(r.below(4));
         for (int i = 0; i < steps; ++i)
         {
-            switch (r.below(4))
+            switch (g_susp_mode ? 2u : r.below(4))
             {
             case 0:
             case 1:
@@ -255,6 +257,9 @@ static sched_pick pick(rng& r)
     {
         hint = long(r.below(std::uint32_t(2 * pd.n + 1)));
         if (r.below(16) == 0) hint = -long(r.below(5)) - 1;
+        // shared_priority_queue_scheduler indexes its lookup tables with the raw hint (no range check:
+        // out-of-bounds read, see notes/C10.md); only valid worker numbers are generated for it unless asked
+        if (pd.opaque && !g_oob_hints) hint = long(r.below(std::uint32_t(pd.n)));
         sp.s = ex::with_hint(sp.s, pika::execution::thread_schedule_hint(std::int16_t(hint)));
     }
     // static policy + normal priority + worker hint naming a worker: every phase on that worker.
@@ -277,7 +282,7 @@ static void pipeline(std::uint64_t seed, int depth)
     auto tail = [=] {
         if (nest) submit(s3, depth + 1);
     };
-    switch (r.below(7))
+    switch (g_susp_mode ? 0u : r.below(7))
     {
     case 0:    // schedule | then
         g_expected.fetch_add(1);
@@ -456,8 +461,12 @@ int main(int argc, char** argv)
         std::string a = argv[i];
         if (a.rfind("--pika:scheduler=", 0) == 0) g_pools[0].policy = a.substr(17);
         if (a.rfind("--pika:high-priority-threads=", 0) == 0) g_nhp_opt = std::size_t(std::atoi(a.substr(29).c_str()));
+        std::string const ini = "--pika:ini=pika.thread_queue.high_priority_queues!=";
+        if (a.rfind(ini, 0) == 0) g_nhp_opt = std::size_t(std::atoi(a.substr(ini.size()).c_str()));
     }
     e2::g_place = true;
+    g_susp_mode = mode == "susp";
+    g_oob_hints = std::getenv("C10_OOB_HINTS") != nullptr;
     e2::install(seed, perturb);
     pika::init_params ip;
     ip.rp_callback = &rp_cb;
